@@ -371,7 +371,7 @@ impl Duration {
         } else {
             // Centuries negative by a decent amount
             i128::from(self.centuries) * i128::from(NANOSECONDS_PER_CENTURY)
-                - i128::from(self.nanoseconds)
+                + i128::from(self.nanoseconds)
         }
     }
 
